@@ -116,3 +116,18 @@ def or_fact_match(facts, alts):
         if okb and len(used) == len(alts):
             return True
     return False
+
+
+
+def compose(ctx, rep, module, dst, only):
+    """run another property's rule module inside this check, keeping only the rule families matching `only`, renamed
+    `<dst>.<family>`.  Composition is one level deep: a module that is itself being composed does not compose others."""
+    if getattr(ctx, "_composing", 0) >= 1:
+        return
+    import importlib
+    mod = importlib.import_module("rules." + module)
+    ctx._composing = getattr(ctx, "_composing", 0) + 1
+    try:
+        mod.run(ctx, SubReport(rep, module, dst, only=only))
+    finally:
+        ctx._composing -= 1
